@@ -580,13 +580,20 @@ def roomGranted (p : Pool) (m : Nat) (r : Req) : Pool :=
            else p
   (p.createTask m (r.kind == .map)).continueSpawner m
 
-def wakeWaitRoom (p : Pool) (m : Nat) (r : Req) : Pool :=
+def wakeWaitRoomCore (p : Pool) (m : Nat) (r : Req) : Pool :=
   let rw := removeWaiterL m p.sem.waiters
   let p : Pool := { p with sem := { p.sem with waiters := rw.2 } }
   let p := p.modReq m fun x => { x with mustCancel := false }
   if rw.1 == some .cancelled || r.mustCancel then p.roomWaitCancelled m r rw.1
   else if rw.1 == some .granted then p.roomGranted m r
   else p
+
+/-- a wake-up of a spawner whose waiter future is still pending (or that has none) and that was not cancelled cannot
+happen on a run of the real loop — a future schedules its waiter when it completes, `Task.cancel()` when it cancels the
+future; should the handle be run all the same, the coroutine is not resumed: nothing changes (totalisation) -/
+def wakeWaitRoom (p : Pool) (m : Nat) (r : Req) : Pool :=
+  if (removeWaiterL m p.sem.waiters).1 == some .cancelled || r.mustCancel || (removeWaiterL m p.sem.waiters).1 == some .granted
+  then p.wakeWaitRoomCore m r else p
 
 def mapSemGranted (p : Pool) (m : Nat) (r : Req) : Pool :=
   let q := (p.modReq m fun x => { x with acquired := true, frame := .running }).mapStartTask m
@@ -595,7 +602,7 @@ def mapSemGranted (p : Pool) (m : Nat) (r : Req) : Pool :=
 /-- the spawner wakes up inside `acquire()` of the call's own semaphore (CPython 3.12.1): its waiter entry is removed;
 cancelled while the slot had already been granted: `_value += 1; _wake_up_next()`; granted: `if _value > 0:
 _wake_up_next()` — both still inside `acquire()`, before `_arg_consumer` runs on -/
-def wakeWaitMapSem (p : Pool) (m : Nat) (r : Req) : Pool :=
+def wakeWaitMapSemCore (p : Pool) (m : Nat) (r : Req) : Pool :=
   let rw := removeWaiterL m r.mapSem.waiters
   let s1 : Sem := { r.mapSem with waiters := rw.2 }
   let cancelled := rw.1 == some .cancelled || r.mustCancel
@@ -609,6 +616,11 @@ def wakeWaitMapSem (p : Pool) (m : Nat) (r : Req) : Pool :=
   if cancelled then p.finishMeta m .ok
   else if granted then p.mapSemGranted m r
   else p
+
+/-- as `wakeWaitRoom`: a spurious wake-up does not resume the coroutine -/
+def wakeWaitMapSem (p : Pool) (m : Nat) (r : Req) : Pool :=
+  if (removeWaiterL m r.mapSem.waiters).1 == some .cancelled || r.mustCancel || (removeWaiterL m r.mapSem.waiters).1 == some .granted
+  then p.wakeWaitMapSemCore m r else p
 
 def stepMeta (p : Pool) (m : Nat) : Pool :=
   match p.reqs[m]? with
